@@ -50,6 +50,7 @@ import (
 	"go/types"
 	"log"
 	"runtime"
+	"runtime/debug"
 	"slices"
 	"strings"
 
@@ -102,14 +103,20 @@ type frame struct {
 	caller           *frame
 	fn               *ssa.Function
 	block, prevBlock *ssa.BasicBlock
-	env              map[ssa.Value]value // dynamic values of SSA variables
+	env              []value             // dynamic values of SSA variables, indexed by fnInfo.num
+	info             *fnInfo
 	locals           []value
 	defers           *deferred
 	result           value
 	panicking        bool
 	panic            any
 	phitemps         []value // temporaries for parallel phi assignment
-	visits           []int32 // per-block visit counts (unwinding bound)
+	visits           []int32 // per-block back-edge counts (unwinding bound)
+	depthIdx         int
+}
+
+func (fr *frame) set(key ssa.Value, v value) {
+	fr.env[fr.info.num[key]] = v
 }
 
 func (fr *frame) get(key ssa.Value) value {
@@ -126,9 +133,13 @@ func (fr *frame) get(key ssa.Value) value {
 		if r, ok := fr.i.globals[key]; ok {
 			return r
 		}
+		// global storage is allocated on first use
+		cell := zero(mustDeref(key.Type()))
+		fr.i.globals[key] = &cell
+		return &cell
 	}
-	if r, ok := fr.env[key]; ok {
-		return r
+	if idx, ok := fr.info.num[key]; ok {
+		return fr.env[idx]
 	}
 	panic(fmt.Sprintf("get: no value for %T: %v", key, key.Name()))
 }
@@ -194,35 +205,35 @@ func visitInstr(fr *frame, instr ssa.Instruction) continuation {
 		// no-op
 
 	case *ssa.UnOp:
-		fr.env[instr] = unop(fr.i.cx, instr, fr.get(instr.X))
+		fr.set(instr, unop(fr.i.cx, instr, fr.get(instr.X)))
 
 	case *ssa.BinOp:
-		fr.env[instr] = binop(fr.i.cx, instr.Op, instr.X.Type(), fr.get(instr.X), fr.get(instr.Y))
+		fr.set(instr, binop(fr.i.cx, instr.Op, instr.X.Type(), fr.get(instr.X), fr.get(instr.Y)))
 
 	case *ssa.Call:
 		fn, args := prepareCall(fr, &instr.Call)
-		fr.env[instr] = call(fr.i, fr, instr.Pos(), fn, args)
+		fr.set(instr, call(fr.i, fr, instr.Pos(), fn, args))
 
 	case *ssa.ChangeInterface:
-		fr.env[instr] = fr.get(instr.X)
+		fr.set(instr, fr.get(instr.X))
 
 	case *ssa.ChangeType:
-		fr.env[instr] = fr.get(instr.X) // (can't fail)
+		fr.set(instr, fr.get(instr.X)) // (can't fail)
 
 	case *ssa.Convert:
-		fr.env[instr] = conv(fr.i.cx, instr.Type(), instr.X.Type(), fr.get(instr.X))
+		fr.set(instr, conv(fr.i.cx, instr.Type(), instr.X.Type(), fr.get(instr.X)))
 
 	case *ssa.SliceToArrayPointer:
-		fr.env[instr] = sliceToArrayPointer(instr.Type(), instr.X.Type(), fr.get(instr.X))
+		fr.set(instr, sliceToArrayPointer(instr.Type(), instr.X.Type(), fr.get(instr.X)))
 
 	case *ssa.MakeInterface:
-		fr.env[instr] = iface{t: instr.X.Type(), v: fr.get(instr.X)}
+		fr.set(instr, iface{t: instr.X.Type(), v: fr.get(instr.X)})
 
 	case *ssa.Extract:
-		fr.env[instr] = fr.get(instr.Tuple).(tuple)[instr.Index]
+		fr.set(instr, fr.get(instr.Tuple).(tuple)[instr.Index])
 
 	case *ssa.Slice:
-		fr.env[instr] = slice(fr.i.cx, fr.get(instr.X), fr.get(instr.Low), fr.get(instr.High), fr.get(instr.Max))
+		fr.set(instr, slice(fr.i.cx, fr.get(instr.X), fr.get(instr.Low), fr.get(instr.High), fr.get(instr.Max)))
 
 	case *ssa.Return:
 		switch len(instr.Results) {
@@ -288,17 +299,17 @@ func visitInstr(fr *frame, instr ssa.Instruction) continuation {
 		if n < 64 {
 			n = 64 // single-goroutine execution: never block on a buffered event channel
 		}
-		fr.env[instr] = make(chan value, n)
+		fr.set(instr, make(chan value, n))
 
 	case *ssa.Alloc:
 		var addr *value
 		if instr.Heap {
 			// new
 			addr = new(value)
-			fr.env[instr] = addr
+			fr.set(instr, addr)
 		} else {
 			// local
-			addr = fr.env[instr].(*value)
+			addr = fr.env[fr.info.num[instr]].(*value)
 		}
 		*addr = zero(mustDeref(instr.Type()))
 
@@ -316,31 +327,31 @@ func visitInstr(fr *frame, instr ssa.Instruction) continuation {
 		for i := range slice {
 			slice[i] = zero(tElt)
 		}
-		fr.env[instr] = slice[:lenN]
+		fr.set(instr, slice[:lenN])
 
 	case *ssa.MakeMap:
-		fr.env[instr] = makeMap(instr.Type().Underlying().(*types.Map).Key(), 0)
+		fr.set(instr, makeMap(instr.Type().Underlying().(*types.Map).Key(), 0))
 
 	case *ssa.Range:
-		fr.env[instr] = rangeIter(fr.i.cx, fr.get(instr.X))
+		fr.set(instr, rangeIter(fr.i.cx, fr.get(instr.X)))
 
 	case *ssa.Next:
-		fr.env[instr] = fr.get(instr.Iter).(iter).next()
+		fr.set(instr, fr.get(instr.Iter).(iter).next())
 
 	case *ssa.FieldAddr:
-		fr.env[instr] = &(*fr.get(instr.X).(*value)).(structure)[instr.Field]
+		fr.set(instr, &(*fr.get(instr.X).(*value)).(structure)[instr.Field])
 
 	case *ssa.Field:
-		fr.env[instr] = fr.get(instr.X).(structure)[instr.Field]
+		fr.set(instr, fr.get(instr.X).(structure)[instr.Field])
 
 	case *ssa.IndexAddr:
 		x := fr.get(instr.X)
 		idx := fr.get(instr.Index)
 		switch x := x.(type) {
 		case []value:
-			fr.env[instr] = &x[fr.i.cx.conc(idx)]
+			fr.set(instr, &x[fr.i.cx.conc(idx)])
 		case *value: // *array
-			fr.env[instr] = &(*x).(array)[fr.i.cx.conc(idx)]
+			fr.set(instr, &(*x).(array)[fr.i.cx.conc(idx)])
 		default:
 			panic(fmt.Sprintf("unexpected x type in IndexAddr: %T", x))
 		}
@@ -351,9 +362,9 @@ func visitInstr(fr *frame, instr ssa.Instruction) continuation {
 
 		switch x := x.(type) {
 		case array:
-			fr.env[instr] = x[fr.i.cx.conc(idx)]
+			fr.set(instr, x[fr.i.cx.conc(idx)])
 		case string:
-			fr.env[instr] = x[fr.i.cx.conc(idx)]
+			fr.set(instr, x[fr.i.cx.conc(idx)])
 		case *symstr:
 			fr.i.cx.unsupported("indexing a symbolic string")
 		default:
@@ -361,7 +372,7 @@ func visitInstr(fr *frame, instr ssa.Instruction) continuation {
 		}
 
 	case *ssa.Lookup:
-		fr.env[instr] = lookup(fr.i.cx, instr, fr.get(instr.X), fr.get(instr.Index))
+		fr.set(instr, lookup(fr.i.cx, instr, fr.get(instr.X), fr.get(instr.Index)))
 
 	case *ssa.MapUpdate:
 		m := fr.get(instr.Map)
@@ -378,20 +389,20 @@ func visitInstr(fr *frame, instr ssa.Instruction) continuation {
 		}
 
 	case *ssa.TypeAssert:
-		fr.env[instr] = typeAssert(instr, fr.get(instr.X).(iface))
+		fr.set(instr, typeAssert(instr, fr.get(instr.X).(iface)))
 
 	case *ssa.MakeClosure:
 		var bindings []value
 		for _, binding := range instr.Bindings {
 			bindings = append(bindings, fr.get(binding))
 		}
-		fr.env[instr] = &closure{instr.Fn.(*ssa.Function), bindings}
+		fr.set(instr, &closure{instr.Fn.(*ssa.Function), bindings})
 
 	case *ssa.Phi:
 		log.Fatal("unreachable") // phis are processed at block entry
 
 	case *ssa.Select:
-		fr.env[instr] = doSelect(fr, instr)
+		fr.set(instr, doSelect(fr, instr))
 
 	default:
 		panic(fmt.Sprintf("unexpected instruction: %T", instr))
@@ -467,72 +478,55 @@ func callSSA(i *interpreter, caller *frame, callpos token.Pos, fn *ssa.Function,
 		fn:     fn,
 	}
 	cx := i.cx
-	{
-		name := fn.String()
-		if ext := externals[name]; ext != nil {
-			cx.intr[name] = true
-			return ext(fr, args)
+	info := cx.fnInfo(fn)
+	if info.ext != nil {
+		if !info.seen {
+			info.seen = true
+			cx.intr[info.name] = true
 		}
-		if fn.Name() == "init" && fn.Pkg != nil && fn.Parent() == nil && fn.Signature.Recv() == nil {
-			if !initAllowed(fn.Pkg.Pkg.Path()) {
-				return nil
-			}
+		return info.ext(fr, args)
+	}
+	if info.skipInit {
+		return nil
+	}
+	if !info.interp || fn.Blocks == nil {
+		if cx.lenient {
+			return zeroResult(fn)
 		}
-		if !Interpretable(fn) {
-			if ext := externalsByPrefix(name); ext != nil {
-				cx.intr[name] = true
-				return ext(fr, args)
-			}
-			if cx.lenient {
-				return zeroResult(fn)
-			}
-			cx.abort("missing-intrinsic", name)
+		if !info.interp {
+			cx.abort("missing-intrinsic", info.name)
 		}
-		if fn.Blocks == nil {
-			if cx.lenient {
-				return zeroResult(fn)
-			}
-			cx.abort("missing-intrinsic", name+" (no body)")
-		}
+		cx.abort("missing-intrinsic", info.name+" (no body)")
 	}
 
 	// generic function body?
 	if fn.TypeParams().Len() > 0 && len(fn.TypeArgs()) == 0 {
 		panic("interp requires ssa.BuilderMode to include InstantiateGenerics to execute generics")
 	}
-	if cx.cfg.TraceFuncs || true {
-		cx.funcs[fn.String()] = true
+	if !info.seen {
+		info.seen = true
+		cx.funcs[info.name] = true
 	}
 	cx.depth++
+	fr.depthIdx = len(cx.stack)
 	cx.stack = append(cx.stack, fr)
 	if cx.depth > cx.cfg.Depth {
 		cx.abort("unwind-exceeded", "call depth in "+fn.String())
 	}
-	defer func() {
-		if r := recover(); r != nil {
-			if cx.panicStack == "" {
-				cx.panicStack = cx.stackString()
-			}
-			cx.depth--
-			cx.stack = cx.stack[:len(cx.stack)-1]
-			panic(r)
-		}
-		cx.depth--
-		cx.stack = cx.stack[:len(cx.stack)-1]
-	}()
 
-	fr.env = make(map[ssa.Value]value)
+	fr.info = info
+	fr.env = make([]value, info.nvals)
 	fr.block = fn.Blocks[0]
 	fr.locals = make([]value, len(fn.Locals))
 	for i, l := range fn.Locals {
 		fr.locals[i] = zero(mustDeref(l.Type()))
-		fr.env[l] = &fr.locals[i]
+		fr.env[info.num[l]] = &fr.locals[i]
 	}
 	for i, p := range fn.Params {
-		fr.env[p] = args[i]
+		fr.env[info.num[p]] = args[i]
 	}
 	for i, fv := range fn.FreeVars {
-		fr.env[fv] = env[i]
+		fr.env[info.num[fv]] = env[i]
 	}
 	for fr.block != nil {
 		runFrame(fr)
@@ -541,6 +535,8 @@ func callSSA(i *interpreter, caller *frame, callpos token.Pos, fn *ssa.Function,
 	for i := range fn.Locals {
 		fr.locals[i] = bad{}
 	}
+	cx.depth = fr.depthIdx
+	cx.stack = cx.stack[:fr.depthIdx]
 	return fr.result
 }
 
@@ -565,6 +561,18 @@ func runFrame(fr *frame) {
 			return // normal return
 		}
 		r := recover()
+		cxr := fr.i.cx
+		if cxr.panicStack == "" {
+			cxr.panicStack = cxr.stackString()
+			if _, isRt := r.(runtime.Error); isRt && cxr.cfg.DebugAborts {
+				cxr.panicStack += firstLines(string(debug.Stack()), 40) + "\n"
+			}
+		}
+		// frames above this one are gone
+		if fr.depthIdx+1 <= len(cxr.stack) {
+			cxr.stack = cxr.stack[:fr.depthIdx+1]
+			cxr.depth = fr.depthIdx + 1
+		}
 		if pa, ok := r.(pathAbort); ok {
 			panic(pa) // engine-level abort: invisible to the target program
 		}
@@ -579,11 +587,12 @@ func runFrame(fr *frame) {
 
 	cx := fr.i.cx
 	for {
-		// unwinding bound: visits of one block within one activation
-		if bi := fr.block.Index; len(fr.block.Preds) > 1 {
+		// unwinding bound: back-edges taken to one block within one activation
+		if fr.prevBlock != nil && fr.block.Index <= fr.prevBlock.Index {
 			if fr.visits == nil {
 				fr.visits = make([]int32, len(fr.fn.Blocks))
 			}
+			bi := fr.block.Index
 			fr.visits[bi]++
 			if int(fr.visits[bi]) > cx.cfg.Unwind {
 				cx.abort("unwind-exceeded", fmt.Sprintf("%s block %d", fr.fn, bi))
@@ -634,7 +643,7 @@ func executePhis(fr *frame) []ssa.Instruction {
 			fr.phitemps = append(fr.phitemps, fr.get(phi.Edges[predIndex]))
 		}
 		for i, phi := range phis {
-			fr.env[phi.(*ssa.Phi)] = fr.phitemps[i]
+			fr.env[fr.info.num[phi.(*ssa.Phi)]] = fr.phitemps[i]
 		}
 	}
 	return nonPhis
@@ -690,15 +699,6 @@ func newInterpreter(prog *ssa.Program, sizes types.Sizes, cx *pathCtx, globalsOf
 		i.runtimeErrorString = runtimePkg.Type("errorString").Object().Type()
 	}
 	initReflect(i)
-	for _, pkg := range globalsOf {
-		for _, m := range pkg.Members {
-			switch v := m.(type) {
-			case *ssa.Global:
-				cell := zero(mustDeref(v.Type()))
-				i.globals[v] = &cell
-			}
-		}
-	}
 	i.presetGlobals()
 	return i
 }
@@ -709,10 +709,9 @@ func (i *interpreter) presetGlobals() {
 	if pkg := i.prog.ImportedPackage("encoding/base64"); pkg != nil {
 		for _, name := range []string{"StdEncoding", "RawStdEncoding", "URLEncoding", "RawURLEncoding"} {
 			if g, ok := pkg.Members[name].(*ssa.Global); ok {
-				if cell, ok := i.globals[g]; ok {
-					var marker value = structure{name}
-					*cell = &marker
-				}
+				var marker value = structure{name}
+				var cell value = &marker
+				i.globals[g] = &cell
 			}
 		}
 	}
@@ -723,4 +722,62 @@ func mustDeref(t types.Type) types.Type {
 		return p.Elem()
 	}
 	panic("mustDeref: " + t.String())
+}
+
+// fnInfo caches per-function facts (per worker: no locking).
+type fnInfo struct {
+	name     string
+	ext      externalFn
+	interp   bool
+	skipInit bool
+	seen     bool
+	num      map[ssa.Value]int
+	nvals    int
+}
+
+func (cx *pathCtx) fnInfo(fn *ssa.Function) *fnInfo {
+	if info, ok := cx.fninfo[fn]; ok {
+		return info
+	}
+	info := &fnInfo{name: fn.String()}
+	info.ext = externals[info.name]
+	if info.ext == nil {
+		if fn.Name() == "init" && fn.Pkg != nil && fn.Parent() == nil && fn.Signature.Recv() == nil && !initAllowed(fn.Pkg.Pkg.Path()) {
+			info.skipInit = true
+		}
+		info.interp = Interpretable(fn)
+		if !info.interp {
+			info.ext = externalsByPrefix(info.name)
+		}
+	}
+	if info.ext == nil && fn.Blocks != nil {
+		info.num = map[ssa.Value]int{}
+		add := func(v ssa.Value) {
+			if _, ok := info.num[v]; !ok {
+				info.num[v] = len(info.num)
+			}
+		}
+		for _, l := range fn.Locals {
+			add(l)
+		}
+		for _, p := range fn.Params {
+			add(p)
+		}
+		for _, fv := range fn.FreeVars {
+			add(fv)
+		}
+		for _, b := range fn.Blocks {
+			for _, in := range b.Instrs {
+				if v, ok := in.(ssa.Value); ok {
+					add(v)
+				}
+			}
+		}
+		info.nvals = len(info.num)
+	}
+	if cx.fninfo == nil {
+		cx.fninfo = map[*ssa.Function]*fnInfo{}
+	}
+	cx.fninfo[fn] = info
+	return info
 }
